@@ -171,12 +171,16 @@ def run(chk):
     if gen_ok and ok:
         single_step(chk, impls)
     else:
-        # broken translator/proof: still evaluate the property's oracle on the real code per slot (directed search)
+        # broken translator/proof: evaluate the property's oracle on the real code per slot (directed search:
+        # slots whose closure is named in the build errors get an exhaustive boundary sweep of their operand bytes)
         chk.note('model unavailable: running the per-slot oracle on the real simulators only')
+        from simcheck import suspect_slots, directed_states
+        suspects = set(suspect_slots(chk))
         for name, wrapper, driver, is_c in impls:
             for tbl, op in simcorr.all_slots():
-                for _ in range(chk.scale(10, 60)):
-                    st = simcorr.rand_state(chk.rng, tbl, op, t_bias=t_bias)
+                states = directed_states(chk.rng, tbl, op, 200) if (tbl, op) in suspects else \
+                    (simcorr.rand_state(chk.rng, tbl, op, t_bias=t_bias) for _ in range(chk.scale(10, 60)))
+                for st in states:
                     out = wrapper.step(*st)
                     bad = check_step_oracle(st[0], st[1], st[2], out)
                     chk.case(f'{name}:{tbl}', (name, tbl, op, tuple(st[0])))
